@@ -128,6 +128,17 @@ func main() {
 				return
 			}
 			if *dump != "" {
+				if strings.HasPrefix(*dump, "writes:") {
+					for _, q := range strings.Split(strings.TrimPrefix(*dump, "writes:"), ";") {
+						fn, err := prog.LookupFunc(q)
+						if err != nil {
+							fmt.Println(q, "->", err)
+							continue
+						}
+						fmt.Println(q, "->", receiverWrites(fn))
+					}
+					return
+				}
 				dumpFunc(prog, *dump)
 				return
 			}
